@@ -191,6 +191,98 @@ def r18_3(chk, P, E):
         chk.ob('R18.3', key, cons, ok, F.where(e), msg, path=cfg.block_lines(F, path) if path else None)
 
 
+ALLOCATORS = {'_vorbis_block_alloc': 1, '_ogg_malloc': 0, 'malloc': 0, '__builtin_alloca': 0, 'alloca': 0}
+
+
+def _size_form(P, F, e, defs, depth=0):
+    """a size expression as (integer coefficient, sorted tuple of symbolic factor texts), or None when it is not a product"""
+    e = F.strip_casts(e)
+    nd = F.ex[e]
+    c = common.const_val(F, e)
+    if c is not None:
+        return (c, ())
+    if nd['k'] in ('sizeof',) and 'v' in nd:
+        return (nd['v'], ())
+    if nd['k'] == 'bin' and nd['op'] == '*':
+        a, b = _size_form(P, F, nd['c'][0], defs, depth), _size_form(P, F, nd['c'][1], defs, depth)
+        if a is None or b is None:
+            return None
+        return (a[0] * b[0], tuple(sorted(a[1] + b[1])))
+    if nd['k'] == 'ref' and nd['decl'].get('kind') == 'var' and depth < 3:
+        d = defs.get(nd['decl'].get('id'))
+        if d is not None:
+            sub = _size_form(P, F, d, defs, depth + 1)
+            if sub is not None and sub[1] != ():
+                return sub
+    if nd['k'] in ('ref', 'member', 'sub', 'bin', 'call'):
+        return (1, (F.s(e, names=True),))
+    return None
+
+
+def r18_7(chk, P):
+    chk.rule('R18.7', 'a clear covers the allocation it follows: where the result of an allocator that does not zero memory '
+             '(_vorbis_block_alloc, malloc, alloca) is stored into an lvalue and a memset(.., 0, ..) of the same lvalue follows in '
+             'the same function, the cleared size is at least the allocated size (both sizes as products: equal symbolic factors, '
+             'coefficient not smaller).  A clear that lacks a factor of the allocation (the channel count, say) leaves the rest '
+             'of the table holding whatever the arena or the heap held -- and such tables hold pointers that are tested for NULL')
+    n = 0
+    for F in P.functions():
+        defs = None
+        allocs = {}
+        for e in F.pos:
+            nd = F.ex[e]
+            tgt, rhs = None, None
+            if nd['k'] == 'assign' and nd['op'] == '=':
+                tgt, rhs = F.s(F.strip_casts(nd['c'][0])), nd['c'][1]
+                rows = [(tgt, rhs)]
+            elif nd['k'] == 'decl':
+                rows = [(v['name'], v['init']) for v in nd['vars'] if v.get('init')]
+            else:
+                continue
+            for tgt, rhs in rows:
+                r = F.ex[F.strip_casts(rhs)]
+                if r['k'] == 'call' and r['callee'].get('d') in ALLOCATORS:
+                    ai = ALLOCATORS[r['callee']['d']]
+                    if ai < len(r.get('c', [])):
+                        allocs.setdefault(tgt, []).append((e, r['c'][ai]))
+        if not allocs:
+            continue
+        for c in F.calls('memset'):
+            a = F.ex[c]['c']
+            if len(a) < 3 or common.const_val(F, a[1]) != 0:
+                continue
+            tgt = F.s(F.strip_casts(a[0]))
+            if tgt not in allocs:
+                continue
+            # the nearest allocation that reaches the memset
+            cands = [(e, sz) for (e, sz) in allocs[tgt] if cfg.search(F, F.pos[e], lambda q: q == c, lambda q: False) is not None]
+            if not cands:
+                continue
+            if defs is None:
+                defs = common.single_defs(F)
+            e, sz = max(cands, key=lambda x: F.ex[x[0]].get('loc', [0])[0] if F.ex[x[0]].get('loc') else 0)
+            f1, f2 = _size_form(P, F, sz, defs), _size_form(P, F, a[2], defs)
+            if f1 is None or f2 is None:
+                continue
+            if f1[1] == f2[1]:
+                ok = f2[0] >= f1[0]
+            else:
+                m1, m2 = list(f1[1]), list(f2[1])
+                for x in list(m2):
+                    if x in m1:
+                        m1.remove(x)
+                        m2.remove(x)
+                if m1 and not m2:
+                    ok = False          # the clear lacks factors of the allocation
+                else:
+                    continue            # incomparable products: not decided
+            n += 1
+            chk.ob('R18.7', P.key(F), f'clear-covers-allocation:{tgt}@{F.loc(c)}', ok, F.where(c),
+                   f'allocated {F.s(sz)}, cleared {F.s(a[2])}' if ok else
+                   f'{tgt}: allocated {F.s(sz)} but only {F.s(a[2])} cleared: the remainder keeps whatever the memory held before')
+    return n
+
+
 def r18_4(chk, P):
     chk.rule('R18.4', 'every call of vorbis_fpu_setround is followed on all paths by vorbis_fpu_restore before the '
              'function returns and before any call through a caller-supplied function pointer')
@@ -250,6 +342,8 @@ def run(chk, P):
     from rules import c11
     c11.r11_3(common.Proxy(chk, 'R18.6'), P)
     chk.floor('R18.6', 2)
+    r18_7(chk, P)
+    chk.floor('R18.7', 3)
     selftest(chk, P)
     unk = sorted({u for S in E.st.values() for u in S.unknown_calls})
     chk.notes.append(f'K3: fixpoint in {E.iterations} rounds; {nsites} direct store/free sites classified; '
